@@ -299,7 +299,7 @@ def run(tier):
             if not ok_paths:
                 bad.append("no assigning path")
             for r in ok_paths:
-                atoms = [(c, v) for c, v in r["pc"].items() if is_extent_atom(c, shape=n not in FLAT_ASSIGN)]
+                atoms = [(c, v) for c, v in r["pc"].items() if is_extent_atom(c, shape=n not in FLAT_ASSIGN, flat_multi=(n in FLAT_ASSIGN and D > 1))]
                 if not any(v for c, v in atoms):
                     bad.append("an assigning path has not passed an extents / size comparison of the operands")
                     continue
@@ -345,7 +345,7 @@ def run(tier):
     return rep
 
 
-def is_extent_atom(c, shape=False):
+def is_extent_atom(c, shape=False, flat_multi=False):
     s = repr(c)
     t = typestate.strip(c)
     if isinstance(t, tuple) and len(t) == 3 and t[0] == "call" and len(t[2]) == 2 and t[2][0] == t[2][1]:
@@ -354,6 +354,10 @@ def is_extent_atom(c, shape=False):
         return False
     if shape:
         return bool(re.search(r"operator[=!]=\((range|extensions_t|extension_t)|extensions_t::operator[=!]=", s))
+    if flat_multi:
+        # a flat copy of num_elements() items of a D > 1 operand: only a comparison over all dimensions (whole extensions or element counts) bounds it;
+        # equality of the leading extension alone does not
+        return bool(re.search(r"operator[=!]=\(extensions_t|extensions_t::operator[=!]=|num_elements", s))
     return bool(re.search(r"operator[=!]=\((range|extensions_t|extension_t)|extensions_t::operator[=!]=|layout_t::(size|num_elements)\(\)|extensions_t::num_elements", s))
 
 
